@@ -230,6 +230,7 @@ def build_wrapper(t, ctx):
         d = create_discipline("TaylorDiscipline", discipline=Sellar1(), input_data={"x_1": array([0.5]), "x_shared": array([1.0, 2.0]), "y_2": array([2.0]), "gamma": array([0.2])})
         inputs = s1_inputs
     elif kind == "Linear":
+        np.random.seed(20240 + t.choice(3, "matrix_seed"))  # (the sparse matrix is drawn from NumPy's global generator)
         d = create_discipline("LinearDiscipline", name="L", input_names=["a", "b"], output_names=["c", "d"], inputs_size=2, outputs_size=3,
                               matrix_format=t.pick(["dense", "csr"], "matrix_format"), matrix_density=0.6)
         inputs = [{"a": array([1.0, 2.0]), "b": array([0.5, -1.0])}, {"a": array([0.0, 1.0])}, {"b": array([2.0, 2.0])}, {}]
